@@ -1389,6 +1389,7 @@ def kkt_chol2(G, dims, A, mnl = 0):
     def factor(W, H = None, Df = None):
 
         if F['firstcall']:
+            F['singular'] = False
             if type(G) is matrix: 
                 F['Gs'] = matrix(0.0, G.size) 
             else:
